@@ -24,11 +24,13 @@ from core import coqrun
 
 ID = 'C08'
 PROPERTY_FILE = 'C08/Property.v'
-PROPERTY_FILES = ['C08/Property.v', 'C08/Examples.v', 'C08/FloatProperty.v']   # Examples: non-vacuity on the generated layout
-PROPERTY_FILES_NO_GEN = ['C08/FloatProperty.v']          # does not depend on Gen_Layout.v
+PROPERTY_FILES = ['C08/Property.v', 'C08/Examples.v', 'C08/PropertyCore.v', 'C08/SnapshotProperty.v', 'C08/FloatProperty.v']
+# hand-written obligations that do not depend on Gen_Layout.v: still checked when the translator fails closed
+PROPERTY_FILES_NO_GEN = ['C08/PropertyCore.v', 'C08/SnapshotProperty.v', 'C08/FloatProperty.v']
 LEVEL = 'proof'
 # the integer/byte-level theorems are closed; only the real-number resolution theorems (Flocq) use the reals' axioms
-ALLOWED_AXIOMS = {'C08/Property.v': (), 'C08/Examples.v': (), 'C08/FloatProperty.v': coqrun.REAL_AXIOMS}
+ALLOWED_AXIOMS = {'C08/Property.v': (), 'C08/Examples.v': (), 'C08/PropertyCore.v': (), 'C08/SnapshotProperty.v': (),
+                  'C08/FloatProperty.v': coqrun.REAL_AXIOMS}
 TRUSTED_BASE = [
     'coq/C08/FwLayout.v: hand-written transcription of the firmware packed structs, sign conventions and type-byte '
     'dispatch (firmware source not available offline) and of the documented meaning of each method; this is the '
@@ -140,13 +142,30 @@ TWO_PI = 2 * math.pi
 
 # ====================================================================================== running the real code
 class _Link:
+    """Keeps packet REFERENCES, like the real drivers: RadioDriver.send_packet puts the CRTPPacket object into its
+    out_queue and the radio thread reads pk.header / pk.data only when it transmits, possibly several packets later.
+    send_packet() enqueues the object; transmit(keep) lets the simulated radio send the oldest packets until at most
+    `keep` are left, reading header, port, channel and data AT THAT MOMENT."""
     needs_resending = False
 
     def __init__(self):
-        self.sent = []
+        self.queue = []
+        self.new = []
 
     def send_packet(self, pk):
-        self.sent.append((pk.header, pk.port, pk.channel, bytes(pk.data)))
+        e = {'pk': pk, 'tx': None}
+        self.queue.append(e)
+        self.new.append(e)
+
+    def transmit(self, keep=0):
+        while len(self.queue) > keep:
+            e = self.queue.pop(0)
+            pk = e['pk']
+            e['tx'] = (pk.header, pk.port, pk.channel, bytes(pk.data))
+
+    def discard(self):
+        del self.queue[:]
+        del self.new[:]
 
     def close(self):
         pass
@@ -166,16 +185,18 @@ def _rig():
 EXN_CODE = {'ValueError': 1, 'error': 2, 'OverflowError': 3, 'TypeError': 4}
 
 
-def call_impl(cmd, ver, xm, pyargs, by_keyword=False, omit_defaults=False, set_version=True):
+def call_impl(cmd, ver, xm, pyargs, by_keyword=False, omit_defaults=False, set_version=True, lag=0):
     """Call the real method.  pyargs: list of Python values, one per API parameter.
-    -> ('sent', header, port, chan, bytes) | ('raise', class name) | ('none',) | ('multi', n)"""
+    lag: how many packets the radio may stay behind after this call (0: it transmits everything at once).
+    -> ('sent', header, port, chan, bytes) | ('raise', class name) | ('none',) | ('multi', n)
+       | ('pending', queue entry) when the packet of this call has not been transmitted yet"""
     cf, link, lopo = _rig()
     objname, meth, params = CMDS[cmd]
     obj = lopo if objname == 'lopo' else getattr(cf, objname)
     if set_version:           # single-call use (replay of old corpus entries); sessions drive the version themselves
         cf.platform._protocolVersion = ver
     cf.commander.set_client_xmode(xm)
-    del link.sent[:]
+    del link.new[:]
     args = [(bytes(a) if p[1] == 'raw' else list(a)) if isinstance(a, list) else a for p, a in zip(params, pyargs)]
     kw = {}
     if omit_defaults:
@@ -190,15 +211,20 @@ def call_impl(cmd, ver, xm, pyargs, by_keyword=False, omit_defaults=False, set_v
             warnings.simplefilter('ignore')
             getattr(obj, meth)(*args, **kw)
     except Exception as e:  # noqa
-        if link.sent:
-            return ('sent+raise', type(e).__name__, len(link.sent))
+        if link.new:
+            link.transmit(0)
+            return ('sent+raise', type(e).__name__, len(link.new))
         return ('raise', type(e).__name__)
-    if not link.sent:
+    if not link.new:
         return ('none',)
-    if len(link.sent) > 1:
-        return ('multi', len(link.sent))
-    h, p, c, b = link.sent[0]
-    return ('sent', h, p, c, b)
+    if len(link.new) > 1:
+        link.transmit(0)
+        return ('multi', len(link.new))
+    entry = link.new[0]
+    link.transmit(lag)
+    if entry['tx'] is None:
+        return ('pending', entry)
+    return ('sent',) + entry['tx']
 
 
 def _same(a, b):
@@ -218,8 +244,9 @@ def _same(a, b):
 #   call        one command method; it must be encoded for the version in force at that moment
 def rig_connect():
     cf, link, _ = _rig()
+    link.transmit(0)
     cf.platform.fetch_platform_informations(lambda: None)
-    del link.sent[:]
+    link.discard()                              # the negotiation packet is not a command
 
 
 def rig_answer(ver):
@@ -229,13 +256,12 @@ def rig_answer(ver):
     pk.set_header(CRTPPort.PLATFORM, 1)          # VERSION_COMMAND channel
     pk.data = (0, ver)                           # VERSION_GET_PROTOCOL, version
     cf.platform._platform_callback(pk)
-    del link.sent[:]
 
 
 def rig_disconnect():
     cf, link, _ = _rig()
+    link.transmit(0)
     cf.disconnected.call('fake://c08')
-    del link.sent[:]
 
 
 def version_in_force():
@@ -258,11 +284,12 @@ def build_sessions(cases, rng, keep_ver=False):
         i = j
         pre = 0 if (v == -1 or keep_ver or rng.random() < 0.5) else rng.randint(1, min(3, len(chunk)))
         steps = [{'op': 'connect'}]
+        lagmax = rng.choice([0, 0, 1, 2, 3])          # how far the radio may fall behind in this session
         for k, c in enumerate(chunk):
             if k == pre and v != -1:
                 steps.append({'op': 'answer', 'ver': v})
             c['ver'] = -1 if k < pre else v
-            steps.append({'op': 'call', 'case': c})
+            steps.append({'op': 'call', 'case': c, 'lag': rng.randint(0, lagmax)})
         if pre >= len(chunk) and v != -1:
             steps.append({'op': 'answer', 'ver': v})
         steps.append({'op': 'disconnect'})
@@ -290,37 +317,85 @@ def version_race_sessions():
     return out
 
 
+def back_to_back_sessions():
+    """command sequences issued back to back on ONE commander object while the radio is behind"""
+    def call(cmd, args, lag, xm=False):
+        return {'op': 'call', 'case': {'cmd': cmd, 'ver': None, 'xm': xm, 'args': list(args)}, 'lag': lag}
+    seqs = [
+        [call('CHlDefineTraj', [1, 0, 3, 0], 1), call('CHlStartTraj', [1, 1.0, False, False, 0], 1)],
+        [call('CHlTakeoff', [1.0, 2.0, 0, 0.0], 3), call('CHlGoTo', [1.0, 2.0, 3.0, 0.5, 2.0, False, False, 0], 3),
+         call('CHlLand', [0.0, 2.0, 0, 0.0], 3), call('CHlStop', [0], 3)],
+        [call('CHover', [1.0, 2.0, 3.0, 4.0], 2), call('CHover', [0.5, 0.25, -3.0, 0.4], 2),
+         call('CSetpoint', [1.0, 2.0, 3.0, 1000], 2), call('CStopSetpoint', [], 2), call('CNotifyStop', [10], 0)],
+        [call('CPosition', [1.0, 2.0, 3.0, 4.0], 1), call('CVelocityWorld', [0.1, 0.2, 0.3, 0.4], 1),
+         call('CZDistance', [1.0, 2.0, 3.0, 4.0], 1)],
+        [call('CLocExtPos', [[1.0, 2.0, 3.0]], 1), call('CLocExtPos', [[4.0, 5.0, 6.0]], 1),
+         call('CLocExtPose', [[1.0, 2.0, 3.0], [0.0, 0.0, 0.0, 1.0]], 1), call('CLocEmergencyWatchdog', [], 0)],
+        [call('CPlatArming', [True], 1), call('CPlatArming', [False], 1), call('CPlatCrashRecovery', [], 0)],
+        [call('CLpsSetMode', [1, 2], 1), call('CLpsReboot', [2, 1], 1), call('CLpsSetPosition', [3, [1.0, 2.0, 3.0]], 0)],
+    ]
+    out = []
+    for ver in (9, 7):
+        for seq in seqs:
+            out.append([{'op': 'connect'}, {'op': 'answer', 'ver': ver}] + [dict(st, case=dict(st['case'], args=list(st['case']['args'])))
+                                                                          for st in seq] + [{'op': 'disconnect'}])
+    return out
+
+
 def run_sessions(sessions):
     """execute every history; each call step gets case['ver'] = version in force and case['out'] = outcome"""
     n = 0
+    link = _rig()[1]
     for steps in sessions:
-        for st in steps:
+        pending = []
+
+        def resolve(idx):
+            for item in list(pending):
+                c, entry = item
+                if entry['tx'] is not None:
+                    o = ('sent',) + entry['tx']
+                    c['out'] = canon_nans(o, c['ver']) if has_nan_risk(c) else o
+                    c['_tx_at'] = idx
+                    pending.remove(item)
+        for idx, st in enumerate(steps):
             if st['op'] == 'connect':
                 rig_connect()
             elif st['op'] == 'answer':
                 rig_answer(st['ver'])
             elif st['op'] == 'disconnect':
-                rig_disconnect()
+                rig_disconnect()                     # the radio drains its queue first
             else:
                 c = st['case']
                 c['ver'] = version_in_force()
                 o = call_impl(c['cmd'], c['ver'], c['xm'], c['args'], by_keyword=c.get('kw', False),
-                              omit_defaults=c.get('omit', False), set_version=False)
-                c['out'] = canon_nans(o, c['ver']) if has_nan_risk(c) else o
+                              omit_defaults=c.get('omit', False), set_version=False, lag=st.get('lag', 0))
+                c['_tx_at'] = idx
+                if o[0] == 'pending':
+                    pending.append((c, o[1]))
+                else:
+                    c['out'] = canon_nans(o, c['ver']) if has_nan_risk(c) else o
                 n += 1
+            resolve(idx)
+        link.transmit(0)
+        resolve(len(steps) - 1)
     return n
 
 
 def history_json(steps, upto_case):
-    """the history up to and including the call of upto_case, JSON-safe"""
+    """the history up to the step after which the packet of upto_case had been transmitted (later calls on the same
+    objects belong to it: they may have touched the queued packet), JSON-safe; the judged call is marked"""
     out = []
-    for st in steps:
+    last = upto_case.get('_tx_at', len(steps) - 1)
+    for idx, st in enumerate(steps):
+        if idx > last:
+            break
         if st['op'] == 'call':
             c = st['case']
-            out.append({'op': 'call', 'cmd': c['cmd'], 'xmode': c['xm'], 'args': _enc_args(c['args']),
-                        'by_keyword': c.get('kw', False), 'omit_defaults': c.get('omit', False)})
+            d = {'op': 'call', 'cmd': c['cmd'], 'xmode': c['xm'], 'args': _enc_args(c['args']), 'lag': st.get('lag', 0),
+                 'by_keyword': c.get('kw', False), 'omit_defaults': c.get('omit', False)}
             if c is upto_case:
-                break
+                d['judge'] = True
+            out.append(d)
         else:
             out.append(dict(st))
     return out
@@ -334,8 +409,8 @@ def shrink_history(hist):
     if not fails(hist):
         return hist
     i = 0
-    while i < len(hist) - 1:
-        if hist[i]['op'] == 'call':
+    while i < len(hist):
+        if hist[i]['op'] == 'call' and not hist[i].get('judge'):
             cand = hist[:i] + hist[i + 1:]
             if fails(cand):
                 hist = cand
@@ -345,10 +420,11 @@ def shrink_history(hist):
 
 
 def replay_history(hist):
-    """run a JSON history on the rig (after a disconnect, so that nothing of an earlier history is left);
-    judge its last call"""
+    """run a JSON history on the rig (after a disconnect, so that nothing of an earlier history is left); judge the
+    marked call (the last one if none is marked) on what the radio transmitted for it"""
     rig_disconnect()
-    last = None
+    link = _rig()[1]
+    calls = []
     for st in hist:
         if st['op'] == 'connect':
             rig_connect()
@@ -360,14 +436,19 @@ def replay_history(hist):
             args = _dec_args(st['args'])
             ver = version_in_force()
             o = call_impl(st['cmd'], ver, st['xmode'], args, by_keyword=st.get('by_keyword', False),
-                          omit_defaults=st.get('omit_defaults', False), set_version=False)
-            last = (st['cmd'], ver, st['xmode'], args, o)
+                          omit_defaults=st.get('omit_defaults', False), set_version=False, lag=st.get('lag', 0))
+            calls.append([st, ver, args, o])
+    link.transmit(0)
     rig_disconnect()
-    if last is None:
+    if not calls:
         return None
-    f = judge(*last)
+    marked = [c for c in calls if c[0].get('judge')] or [calls[-1]]
+    st, ver, args, o = marked[0]
+    if o[0] == 'pending':
+        o = ('sent',) + o[1]['tx']
+    f = judge(st['cmd'], ver, st['xmode'], args, o)
     if f:
-        f['version_in_force'] = last[1]
+        f['version_in_force'] = ver
     return f
 
 
@@ -1076,7 +1157,7 @@ def tie(ctx):
     for i, c in enumerate(cases):
         c['kw'], c['omit'] = (i % 7 == 3), (i % 5 == 1)
     # session histories: the same objects throughout, the version changes only through connect / answer / disconnect
-    sessions = version_race_sessions() + build_sessions(cases[:n_focus], ctx.rng, keep_ver=True) \
+    sessions = version_race_sessions() + back_to_back_sessions() + build_sessions(cases[:n_focus], ctx.rng, keep_ver=True) \
         + build_sessions(cases[n_focus:], ctx.rng)
     run_sessions(sessions)
     cases, owner = [], {}
@@ -1167,7 +1248,7 @@ def oracle(ctx, deep=False):
             flat.append((i < n_focus, d))
     foc = [d for f, d in flat if f]
     rnd = [d for f, d in flat if not f]
-    sessions = version_race_sessions() + build_sessions(foc, rng, keep_ver=True) + build_sessions(rnd, rng)
+    sessions = version_race_sessions() + back_to_back_sessions() + build_sessions(foc, rng, keep_ver=True) + build_sessions(rnd, rng)
     n += run_sessions(sessions)
     for steps in sessions:
         for st in steps:
@@ -1212,7 +1293,8 @@ def oracle(ctx, deep=False):
             # failure needs the earlier steps: keep the (shrunk) history
             steps, c = f.pop('_steps'), f.pop('_case')
             hist = history_json(steps, c)
-            alone = [{'op': 'connect'}] + ([{'op': 'answer', 'ver': c['ver']}] if c['ver'] != -1 else []) + [hist[-1]]
+            mine = dict([h for h in hist if h.get('judge')][0], lag=0)
+            alone = [{'op': 'connect'}] + ([{'op': 'answer', 'ver': c['ver']}] if c['ver'] != -1 else []) + [mine]
             if replay_history(alone) is not None:
                 hist = alone
             else:
